@@ -85,7 +85,19 @@ pub fn num_exp(r: &mut Rng, ds: &[VarDecl], c: &ModelCfg, depth: u32) -> Exp {
             let e = num_exp(r, ds, c, d);
             if r.chance(1, 2) { Exp::BinOp(BinOp::Mul, Box::new(k), Box::new(e)) } else { Exp::BinOp(BinOp::Mul, Box::new(e), Box::new(k)) }
         }
-        7 => Exp::BinOp(BinOp::Div, Box::new(num_exp(r, ds, c, d)), Box::new(Exp::Number(*r.pick(&[2.0, -2.0, 4.0, 1.0, -1.0, 0.5, 3.0])))),
+        7 => {
+            let num = num_exp(r, ds, c, d);
+            // a third of the divisors are constant EXPRESSIONS (folded by simplify only after flatten has run)
+            let den = if r.chance(1, 3) {
+                let (a, b) = *r.pick(&[(2.0, 3.0), (1.0, 1.0), (4.0, -2.0), (-1.0, -1.0), (0.5, 1.5), (3.0, 1.0)]);
+                match r.below(3) {
+                    0 => Exp::BinOp(BinOp::Add, Box::new(Exp::Number(a)), Box::new(Exp::Number(b))),
+                    1 => Exp::BinOp(BinOp::Sub, Box::new(Exp::Number(a + b + b)), Box::new(Exp::Number(b))),
+                    _ => Exp::BinOp(BinOp::Mul, Box::new(Exp::Number(a)), Box::new(Exp::Number(b))),
+                }
+            } else { Exp::Number(*r.pick(&[2.0, -2.0, 4.0, 1.0, -1.0, 0.5, 3.0])) };
+            Exp::BinOp(BinOp::Div, Box::new(num), Box::new(den))
+        }
         8 => Exp::UnOp(UnOp::Neg, Box::new(num_exp(r, ds, c, d))),
         9 | 10 if c.piecewise => Exp::Abs(Box::new(num_exp(r, ds, c, d))),
         11 | 12 if c.piecewise => {
